@@ -304,3 +304,39 @@ func zzC03ClientGate() {
 	vAssert(want == 0 || len(env.reached) == 0 || env.asyncBefore, "C03.async-before-method-layer")
 	vReach("end")
 }
+
+// C05 (defect D27): a subscriptions/listen call that is dispatched only after ServerSession.Close has collected the
+// listen ids to cancel (it was still queued behind another handler) must not park: nobody would cancel it any more and
+// Close, waiting for the connection to drain, would never return.
+func zzC05ListenAfterClose() {
+	env := &zzC06Env{}
+	zzC06 = env
+	zzCR = &zzConnRec{}
+	zzCloseErr = nil
+	srv := NewServer(&Implementation{Name: "s", Version: "v"}, nil)
+	srv.receivingMethodHandler_ = zzC06Recorder
+	ss := &ServerSession{server: srv, conn: &jsonrpc2.Connection{}}
+	env.meta = Meta{MetaKeyProtocolVersion: protocolVersion20260728, MetaKeyClientCapabilities: &clientCapabilitiesV2{}, MetaKeyClientInfo: &Implementation{Name: "c"}}
+	req := &jsonrpc.Request{Method: methodSubscriptionsListen, ID: jsonrpc2.Int64ID(7), Params: zzParamsFor(methodSubscriptionsListen)}
+	closeFirst := vBool("closeCollectedTheListenIDsFirst")
+	if closeFirst {
+		vAssert(ss.Close() == nil, "C05.close-ok")
+	}
+	_, err := ss.handle(context.Background(), req)
+	reached := len(env.reached) > 0
+	if closeFirst {
+		cancelledLater := false
+		for _, id := range zzCR.cancels {
+			if id == req.ID {
+				cancelledLater = true
+			}
+		}
+		// either the listen never reaches the code that parks, or somebody cancels it
+		vAssert(!reached || cancelledLater, "C05.listen-dispatched-after-close-does-not-park")
+		vAssert(reached || err != nil, "C05.listen-dispatched-after-close-is-answered-with-an-error")
+		vReach("after-close")
+	} else {
+		vAssert(reached && err == nil, "C06.complete-meta-served")
+	}
+	vReach("end")
+}
